@@ -200,6 +200,10 @@ def r2_octave(ctx):
         # whether the pitch has accidentals may select how they are written (decided below), nothing else may
         ne_atoms = [a for a in G.atoms_of(cond_f) if a.startswith('nonempty(') and f'{pp}.name' in a]
         ats = [a for a in G.atoms_of(cond_f) if a not in ne_atoms]
+        if not ats and isinstance(val, ast.Call) and not (isinstance(val.func, ast.Attribute) and val.func.attr == 'join'):
+            # no case split here at all and the text comes from a call that is not looked through (a memoised / decorated helper, a
+            # value object): where the register is decided is not followed
+            raise AnalysisError(f'{at}: export_pitch returns `{src(val)[:60]}`: the spelling is computed by a callee that is not followed')
         if ats != [thr] or len(ne_atoms) > 1 or not F.forced(cond_f, thr, True) and not F.forced(cond_f, thr, False):
             ctx.violation('R2', at, exp.qualname, 'exporter-threshold', f'case split is `{G.show(cond_f)}`, expected octave >= C4 ({C4e})')
             continue
